@@ -14,6 +14,7 @@ pub const CLASSES: &[&str] = &[
     "argument-count-plus-one",
     "integer-where-object-expected",
     "object-where-integer-expected",
+    "constructor-of-another-data-type",
     "unbound-variable",
     "unbound-covariable",
     "unbound-definition",
@@ -96,7 +97,7 @@ pub fn mutate(p: &apr::Prog, text: &str, sites: &[Site], class: &str, rng: &mut 
         }
         "integer-where-object-expected" => {
             let s = pick(sites.iter().filter(|s| matches!(s, Site::ObjArg(..))).collect(), rng)?;
-            let Site::ObjArg(a, b) = s else { return None };
+            let Site::ObjArg(a, b, _) = s else { return None };
             Some(splice(text, a, b, "7"))
         }
         "object-where-integer-expected" => {
@@ -104,6 +105,27 @@ pub fn mutate(p: &apr::Prog, text: &str, sites: &[Site], class: &str, rng: &mut 
             let s = pick(sites.iter().filter(|s| matches!(s, Site::IntArg(..))).collect(), rng)?;
             let Site::IntArg(a, b) = s else { return None };
             Some(splice(text, a, b, &lit))
+        }
+        "constructor-of-another-data-type" => {
+            // an argument of data type U is replaced by a closed constructor term of a different data type T,
+            // preferably one instantiated at the same type arguments
+            let cands: Vec<&Site> = sites.iter().filter(|s| matches!(s, Site::ObjArg(_, _, t) if p.is_data(*t))).collect();
+            let s = pick(cands, rng)?;
+            let Site::ObjArg(a, b, Ty::Inst(u)) = s else { return None };
+            let closed = |i: usize| -> Option<String> {
+                let inst = &p.insts[i];
+                let t = &p.templates[inst.tmpl];
+                if !t.is_data {
+                    return None;
+                }
+                let x = inst.xtors.iter().position(|x| x.fields.iter().all(|(cns, ty)| !*cns && *ty == Ty::I64))?;
+                let args: Vec<String> = inst.xtors[x].fields.iter().map(|_| "0".to_string()).collect();
+                Some(if args.is_empty() { t.xtors[x].name.clone() } else { format!("{}({})", t.xtors[x].name, args.join(", ")) })
+            };
+            let same_args: Vec<usize> = (0..p.insts.len()).filter(|i| *i != u && p.insts[*i].tmpl != p.insts[u].tmpl && p.insts[*i].args == p.insts[u].args && closed(*i).is_some()).collect();
+            let any: Vec<usize> = (0..p.insts.len()).filter(|i| *i != u && p.insts[*i].tmpl != p.insts[u].tmpl && closed(*i).is_some()).collect();
+            let t = if !same_args.is_empty() { same_args[rng.below(same_args.len())] } else if !any.is_empty() { any[rng.below(any.len())] } else { return None };
+            Some(splice(text, a, b, &closed(t)?))
         }
         "unbound-variable" => {
             let s = pick(sites.iter().filter(|s| matches!(s, Site::VarUse(..))).collect(), rng)?;
